@@ -7,6 +7,7 @@ import binascii
 from mdmc import core, trees
 from mdmc.engines import hitx, streams
 from mdmc.props import _engineprop as ep
+from mdmc.refs.engine_model import R, Trace, ref_scan
 
 ID = "C07"
 TITLE = "The depth limit bounds recursion and only ever truncates the tree"
@@ -30,7 +31,7 @@ def describe(tier):
     return {
         "rule": ep.RULE_PREFIX + "Each configuration/input is scanned at EVERY depth limit k of its block's range. Oracle (i): no decoder is invoked "
         "for k<=0 and the result is the bare root; every decoder invocation happens at recursion level < k (level = number of enclosing "
-        "scan_node activations - 1, read by the registry wrapper); the scan terminates although modes rd/rk/dT make every decoded value "
+        "scan_node activations - 1, read by the registry wrapper) and the multiset of (level, searched value) passes equals that of the reference procedure run with budget k (so descending into decoder-supplied sub-structure costs one level per nesting level); the scan terminates although modes rd/rk/dT make every decoded value "
         "decodable again. Oracle (ii) for every pair (k, k+1): tree(k) == tree(k+1) with every node produced by the deepest search pass "
         "(level k) removed -- which implies the order-preserving sub-list relation of every child list. 'layers' = base64^n, hex^n, "
         "(concat o base64)^n for n=1..12 on the shipped registry x k=-1..13. Non-trivial = a pair (k,k+1) whose trees differ.",
@@ -127,10 +128,24 @@ def synth(rec, T, hits, mode, grouped, ks):
     _, ireg = hitx.registries(T, hits, mode, grouped)
     w = {"engine": "hitx-ladder", "T": T, "hits": [list(h) for h in hits], "mode": mode, "grouped": grouped, "ks": list(ks)}
 
-    def scan(k):
-        return trees.iscan(ireg, T, k)
+    mreg, _ = hitx.registries(T, hits, mode, grouped)
+    size = len(hits) * 100 + hitx.MODES.index(mode)
 
-    check_ladder(rec, scan, T, ks, w, len(hits) * 100 + hitx.MODES.index(mode), (T, hits, mode, grouped))
+    def scan(k):
+        tree, log = trees.iscan(ireg, T, k)
+        # the decoder passes (recursion level, searched value) must be exactly those of the reference procedure with budget k
+        tr = Trace()
+        ref_scan(R("", T, "", 0, len(T)), k, mreg, tr)
+        got = sorted((fr - 1, v) for _, fr, v in log.searches)
+        if got != sorted(tr.searches):
+            extra = [x for x in got if x not in tr.searches]
+            missing = [x for x in tr.searches if x not in got]
+            rec.violation("C07.passes-equal-model", f"search-passes-differ|{'extra' if extra and not missing else ('missing' if missing and not extra else 'level')}",
+                          dict(w, depth=k), f"with depth limit {k} the decoders were applied to (level, value) {core.short(extra, 120)} beyond, and not to {core.short(missing, 120)} of, "
+                          f"what the depth rule allows", size)
+        return tree, log
+
+    check_ladder(rec, scan, T, ks, w, size, (T, hits, mode, grouped))
 
 
 def layers(kind, n):
